@@ -695,33 +695,17 @@ fn render_svg(args: &Args, tree: &usvg::Tree) -> Result<tiny_skia::Pixmap, Strin
         let ts = args.fit_to.fit_to_transform(area);
 
         if args.export_area_page {
-            // TODO: add offset support to render_node() so we would not need an additional pixmap
-
-            // The object's box in output pixels.
-            let node_box = bbox
-                .transform(ts)
-                .ok_or_else(|| "node has zero size".to_string())?;
-            let node_size = node_box.size().to_int_size();
-
-            let mut pixmap = tiny_skia::Pixmap::new(node_size.width(), node_size.height())
-                .ok_or_else(|| "node is too large".to_string())?;
-
-            resvg::render_node(node, ts, &mut pixmap.as_mut());
-
-                let mut page_pixmap = new_pixmap(size)?;
+            let mut page_pixmap = new_pixmap(size)?;
 
             if let Some(background) = args.background {
                 page_pixmap.fill(svg_to_skia_color(background));
             }
 
-            page_pixmap.draw_pixmap(
-                node_box.x() as i32,
-                node_box.y() as i32,
-                pixmap.as_ref(),
-                &tiny_skia::PixmapPaint::default(),
-                tiny_skia::Transform::default(),
-                None,
-            );
+            // `render_node` moves the node to the origin of the pixmap.
+            // Move it back, so it is rendered at its place on the page
+            // (a separately rendered image could be placed at whole pixels only).
+            let ts = ts.pre_translate(bbox.x(), bbox.y());
+            resvg::render_node(node, ts, &mut page_pixmap.as_mut());
             page_pixmap
         } else {
             let mut pixmap = new_pixmap(size)?;
